@@ -215,11 +215,44 @@ def run(tier, seed, replay=None):
                             "missing": len(s_spec - s_res), "extra": len(s_res - s_spec)}
         if fail:
             rep.oracle_failures.append({**case_json, **fail, "impl": [tref.show(a, 80) + " : " + tref.show(b, 80) for a, b in res][:6]})
+    # identity stage, on the implementation alone and at the level of the look-up's own equality: a bound re-expressed under the identity
+    # substitution (a block joining a family of its own header) must come back EQUAL for `Bounded: Eq` / `TraitBound: Eq`, which is syn's
+    # structural equality — trailing punctuation, parentheses, optional tokens included. Compared as raw `{:?}` text (the decoded positional
+    # trees drop punctuation); seeded changes C10f (one-element tuple), C10h (trailing comma of longer tuples)
+    forms = IDENTITY_FORMS if tier == "quick" else IDENTITY_FORMS * 1
+    idc = [(bt, tr) for bt in forms for tr in IDENTITY_TRAITS]
+    ires = C.run_hook(exe, [("revsub", [bt, bt, bt, tr]) for bt, tr in idc], tag="hookid")
+    for (bt, tr), (status, f) in zip(idc, ires):
+        if status != "ok":
+            rep.count("identity:hook-" + status)
+            if not (f and f[0].startswith("verif-parse-error")):
+                rep.oracle_failures.append({"case": [bt, bt, bt, tr], "clause": "panic in is_superset/substitute (identity stage)", "message": (f[0] if f else "")[:300]})
+            continue
+        rep.case(("identity", bt, tr), True)
+        rep.count("identity:cases")
+        # f = [a, b, bounded, trait, subs, n, (bounded_i, trait_i)*]
+        n_ = int(f[5]) if len(f) > 5 and f[5].isdigit() else -1
+        outs = [(f[6 + 2 * k], f[7 + 2 * k]) for k in range(max(n_, 0))]
+        if (f[2], f[3]) not in outs:
+            rep.oracle_failures.append({"case": [bt, bt, bt, tr], "clause": "under the identity substitution the bound does not come back unchanged (syn's structural equality: "
+                                        "the key look-up of a block joining its own family misses)", "results": n_,
+                                        "first_result_differs_at": _first_text_diff(f[2] + " : " + f[3], (outs[0][0] + " : " + outs[0][1]) if outs else "")})
     for i, d in dec.items():
         if d[0] == "panic":
             rep.count("impl-panic")
             rep.oracle_failures.append({"case": list(cases[i]), "clause": "panic in is_superset/substitute", "message": d[1][:300]})
     return rep.finish()
+
+
+IDENTITY_FORMS = ["(_ŠČ0, u8,)", "(_ŠČ0, (u8, _ŠČ1,),)", "(_ŠČ0,)", "((_ŠČ0,), u8)", "(_ŠČ0)", "W2<_ŠČ0, u8,>", "[_ŠČ0; 2]", "[(_ŠČ0, u8,)]", "fn(_ŠČ0, u8,) -> _ŠČ0",
+                  "&'static (dyn PlainD<_ŠČ0> + Send)", "Box<dyn Fn(_ŠČ0, u8,) -> u8>", "*const (_ŠČ0, _ŠČ1,)", "<_ŠČ0 as Tr<u8,>>::Out", "Vec<(_ŠČ0, _ŠČ1)>",
+                  "(_ŠČ0, _ŠČ1, _ŠČ2,)", "[_ŠČ0; { N }]", "W1<{ 3 }>", "&mut (_ŠČ0)", "Option<fn((_ŠČ0, u8,),)>"]
+IDENTITY_TRAITS = ["D0<G = GA>", "D2<(_ŠČ0, u8,), G = GA>", "m::D1<_ŠČ0, (u8,), H = (GA, GB,)>", "D3<{ 8 }, [_ŠČ0; 2], G = GA>"]
+
+
+def _first_text_diff(a, b):
+    i = next((k for k in range(min(len(a), len(b))) if a[k] != b[k]), min(len(a), len(b)))
+    return {"at": i, "original": a[max(0, i - 60): i + 60], "result": b[max(0, i - 60): i + 60]}
 
 
 def _spec_noid(sig, t):
